@@ -45,3 +45,105 @@ func VHChunk() {
 		vCover("chunk exact division")
 	}
 }
+
+func c13input() ([]int, []int, int) {
+	N := vParam("N")
+	n := vRange("n", 0, N)
+	in := make([]int, n)
+	for i := range in {
+		in[i] = vInt("e")
+	}
+	snap := append([]int(nil), in...)
+	return in, snap, N
+}
+
+func VHChunkFunc() {
+	in, snap, N := c13input()
+	size := vRange("size", 1, N+2)
+	nn := len(in)
+	want := Chunk(in, size)
+	var log [][]int
+	ChunkFunc(in, size, func(c []int) { log = append(log, c) })
+	vAssert(len(log) == (nn+size-1)/size, "ChunkFunc: number of callbacks is ceil(n/size)")
+	vAssert(len(log) == len(want), "ChunkFunc: same number of pieces as Chunk")
+	k := 0
+	for pi, p := range log {
+		vAssert(len(p) > 0, "ChunkFunc: no empty piece")
+		if pi < len(want) {
+			vAssert(len(p) == len(want[pi]), "ChunkFunc: piece lengths equal Chunk's")
+		}
+		for _, x := range p {
+			vAssert(k < nn, "ChunkFunc: no more elements than the input")
+			vAssert(x == snap[k], "ChunkFunc: concatenation equals input")
+			k++
+		}
+	}
+	vAssert(k == nn, "ChunkFunc: nothing lost")
+	if nn%size >= 1 && nn > size {
+		vCover("chunkfunc has tail")
+	}
+}
+
+func VHWindowed() {
+	in, snap, N := c13input()
+	size := vRange("size", 1, N+2)
+	nn := len(in)
+	got := Windowed(in, size)
+	var log [][]int
+	WindowedFunc(in, size, func(w []int) { log = append(log, w) })
+	if nn < size {
+		vAssert(len(got) == 0, "Windowed: no window when n < size")
+		vAssert(len(log) == 0, "WindowedFunc: no callback when n < size")
+		vCover("windowed n < size")
+		return
+	}
+	vAssert(len(got) == nn-size+1, "Windowed: n-size+1 windows")
+	vAssert(len(log) == len(got), "WindowedFunc: same number of windows")
+	for j, w := range got {
+		vAssert(len(w) == size, "Windowed: window length is size")
+		for i, x := range w {
+			vAssert(x == snap[j+i], "Windowed: window j is input[j:j+size]")
+		}
+		if j < len(log) {
+			vAssert(len(log[j]) == size, "WindowedFunc: window length is size")
+			for i, x := range log[j] {
+				vAssert(x == snap[j+i], "WindowedFunc: window j is input[j:j+size]")
+			}
+		}
+	}
+	for i := range in {
+		vAssert(in[i] == snap[i], "Windowed: input unchanged")
+	}
+	if nn == size {
+		vCover("windowed n == size")
+	}
+	if len(got) >= 3 {
+		vCover("windowed >= 3 windows")
+	}
+}
+
+func VHPairs() {
+	in, snap, _ := c13input()
+	nn := len(in)
+	got := Pairs(in)
+	type pr struct{ a, b int }
+	var log []pr
+	PairsFunc(in, func(a, b int) { log = append(log, pr{a, b}) })
+	want := nn - 1
+	if nn < 2 {
+		want = 0
+	}
+	vAssert(len(got) == want, "Pairs: n-1 pairs")
+	vAssert(len(log) == want, "PairsFunc: n-1 callbacks")
+	for j := range got {
+		vAssert(got[j][0] == snap[j], "Pairs: first of pair j is input[j]")
+		vAssert(got[j][1] == snap[j+1], "Pairs: second of pair j is input[j+1]")
+		if j < len(log) {
+			vAssert(log[j].a == snap[j], "PairsFunc: first of pair j is input[j]")
+			vAssert(log[j].b == snap[j+1], "PairsFunc: second of pair j is input[j+1]")
+		}
+	}
+	if nn >= 3 {
+		vCover("pairs n >= 3")
+	}
+}
